@@ -48,9 +48,30 @@ func (f *Fault) err() error {
 		return op.ErrDuplicateUserCode
 	case "oidc-wrapped":
 		return fmt.Errorf("storage: %w", oidc.ErrInvalidRequest().WithParent(ErrInjected).WithDescription("injected storage fault"))
+	// sentinels of the library that a storage may return (or pass on) from any call: the library gives some of them a special
+	// treatment somewhere, which must never turn a failed storage call into a success
+	case "invalid-refresh":
+		return op.ErrInvalidRefreshToken
+	case "invalid-refresh-wrapped":
+		return fmt.Errorf("storage: %w", op.ErrInvalidRefreshToken)
+	case "canceled":
+		return context.Canceled
+	case "deadline-wrapped":
+		return fmt.Errorf("storage: %w", context.DeadlineExceeded)
+	case "key-none":
+		return oidc.ErrKeyNone
+	case "access-denied": // an *oidc.Error of a type that is a legitimate answer elsewhere
+		return oidc.ErrAccessDenied().WithParent(ErrInjected).WithDescription("injected storage fault")
+	case "slow-down":
+		return oidc.ErrSlowDown().WithParent(ErrInjected)
+	case "authorization-pending":
+		return oidc.ErrAuthorizationPending().WithParent(ErrInjected)
 	}
 	return ErrInjected
 }
+
+// SentinelFaultKinds lists the fault kinds that are library sentinels / special-cased error values (see Fault.err).
+var SentinelFaultKinds = []string{"dup-user-code", "invalid-refresh", "invalid-refresh-wrapped", "canceled", "deadline-wrapped", "key-none", "access-denied", "slow-down", "authorization-pending"}
 
 // refuse builds the error with which the storage reports one of its own refusals (unknown client, wrong secret, unknown
 // code / token ...) in the style the case chose: a plain Go error (default), a matching *oidc.Error, such an error wrapped
